@@ -223,7 +223,7 @@ Qed.
 Lemma in_arg_arg_push c l acc : (c =? c_bs) = false -> (c =? c_sp) = false -> (c =? c_hash) = false ->
   in_arg fl_arg (c :: l) acc false false false = in_arg fl_arg l (c :: acc) false false false.
 Proof.
-  intros H1 H2 H3. cbn [in_arg fl_arg stop_on_equals andb negb]. now rewrite H1, H2, H3.
+  intros H1 H2 H3. cbn [in_arg fl_arg stop_on_equals control_as_char andb negb]. now rewrite H1, H2, H3.
 Qed.
 Lemma in_arg_arg_push_q c l acc : (c =? c_bs) = false -> (c =? c_quote) = false ->
   in_arg fl_arg (c :: l) acc true false false = in_arg fl_arg l (c :: acc) true false false.
@@ -238,7 +238,7 @@ Lemma in_arg_out_push c l acc : cmd_char_ok c = true ->
 Proof.
   intros H. apply cmd_char_ok_inv in H. destruct H as (Hw & Hh & He & Hb & Hq).
   apply not_ws_not_sp in Hw.
-  cbn [in_arg fl_out stop_on_equals andb negb]. now rewrite Hb, Hw, Hh, He.
+  cbn [in_arg fl_out stop_on_equals control_as_char andb negb]. now rewrite Hb, Hw, Hh, He.
 Qed.
 
 Definition sep_or_end (t : str) : Prop := t = [] \/ exists t', t = c_sp :: t'.
@@ -331,8 +331,8 @@ Proof.
       rewrite in_arg_unquoted by assumption.
       change (rev a ++ [c_bs]) with (rev a ++ [c_bs] ++ []). rewrite app_assoc.
       change (rev a ++ [c_bs]) with (rev (c_bs :: a)). now rewrite finish_rev by discriminate.
-    + rewrite double_bs_cons by assumption. cbn [app skip fl_arg control_as_char allow_control].
-      rewrite Hc_h, Hc_sp, Hq1, E.
+    + rewrite double_bs_cons by assumption. cbn [app skip fl_arg control_as_char allow_control negb].
+      rewrite Hc_h, Hc_sp, Hq1, E. cbn [andb].
       rewrite in_arg_unquoted by assumption.
       change (rev a ++ [c]) with (rev a ++ [c] ++ []). rewrite app_assoc.
       change (rev a ++ [c]) with (rev (c :: a)). now rewrite finish_rev by discriminate.
@@ -581,10 +581,9 @@ Proof.
   - cbn [negb andb] in Hp.
     assert (Hne : a <> []) by (intros ->; discriminate).
     unfold cls_Q in Hq. apply orb_false_iff in Hq. destruct Hq as [Hq1 _].
-    unfold cls_H in Hh. rewrite Hp in Hh. cbn [negb] in Hh. rewrite andb_true_r in Hh.
     assert (K : known_spread_value a = false).
-    { unfold known_spread_value, known_spread_quote, known_spread_hash.
-      rewrite wiq_no_space by assumption. rewrite Hq1. exact Hh. }
+    { unfold known_spread_value, known_spread_quote.
+      rewrite wiq_no_space by assumption. rewrite Hq1. reflexivity. }
     rewrite spread_of_words by assumption. rewrite words_single by assumption. reflexivity.
 Qed.
 
@@ -630,8 +629,8 @@ Proof.
     unfold parse_command_line.
     cbn [find_label]. rewrite Hcolon, Hsp.
     unfold find_output_and_command, parse_next_value.
-    cbn [skip fl_out allow_quotes control_as_char allow_control].
-    rewrite Hh, Hsp, Hq, Hbs.
+    cbn [skip fl_out allow_quotes control_as_char allow_control negb].
+    rewrite Hh, Hsp, Hq, Hbs. cbn [andb].
     rewrite in_arg_out_word; [|assumption|apply tailtxt_sep].
     change (rev cmd' ++ [c0]) with (rev cmd' ++ [c0] ++ []). rewrite app_assoc.
     change (rev cmd' ++ [c0]) with (rev (c0 :: cmd')). rewrite finish_rev by discriminate.
